@@ -37,7 +37,7 @@ for seed in range(first, first + n):
             "c03": lambda r, w: simmon.mon_c03(r, w["flags"].get("runtime_variance", 0)), "c05": c05.mon_c05,
             "c06": lambda r, w: simmon.mon_c06(r, sink), "c08": c08.mon_c08_outside_f41,
             "c07": lambda r, w: simmon.mon_c07(r, w), "c10": lambda r, w: simmon.mon_c10(r, w, sink),
-            "c11": simmon.mon_c11, "c12": lambda r, w: simmon.mon_c12(r, w, sink), "c16": simmon.mon_c16,
+            "c11": simmon.mon_c11, "c12": lambda r, w: simmon.mon_c12(r, w, sink, sink), "c16": simmon.mon_c16,
             "c18": lambda r, w: simmon.mon_c18(r, w, sink, sink), "c19": simmon.mon_c19}
     bad = []
     for name, fn in mons.items():
